@@ -23,3 +23,8 @@ VARIANTS = [
               "        common_1 = self.ex2 - self.processed_traces * ((self.ex / self.processed_traces)**2)\n        common_2 = self.ey2 - self.processed_traces * ((self.ey / self.processed_traces)**2)\n"),
              ('scared/distinguishers/cpa.py', "/ (common_1 * com_2)\n", "/ _np.sqrt(common_1 * com_2)\n")]),
 ]
+
+VARIANTS += [
+ dict(id='c03-dpa-masked-division-keeps-zero', prop='C03', expect='C03-D2', file='scared/distinguishers/dpa.py', old='        normalized_ones = (self.accumulator_ones.swapaxes(0, 1) / self.processed_ones).swapaxes(0, 1)\n',
+      new="        normalized_ones = _np.zeros_like(self.accumulator_ones, dtype='float64')\n        _np.divide(self.accumulator_ones, self.processed_ones[:, None], out=normalized_ones, where=self.processed_ones[:, None] > 0)\n"),
+]
